@@ -12,6 +12,13 @@
 // separately constructed filter object.  (6') object-reuse histories (c07_recon_common.h, "hist"): resumes on the SAME
 // reconstruction object, a second run on the same object after every parameter was changed through the setters, and an
 // objective function used by an OSSPS object before.
+// (5') the one-step-late clause uses the harness's OWN prior gradient (OwnPrior in c07_recon_common.h: quadratic prior and RDP
+// from the class documentation, c09_ref.h), the gradient of a prior object is a statistic only.
+// (7) file-based stages ("files" = 1 setters / 2 parsed parameter texts + zero-argument reconstruct()): run A is stage 1 - its
+// objective function WRITES the sensitivities it computed ('sensitivity filename' / 'subset sensitivity filenames'); (7a) the
+// files read back with read_from_file equal the explicit-P sensitivity (total, per subset); (7b) for EVERY k stage 2 = NEW
+// objects that read the image saved after k AND the sensitivities from those files ('recompute sensitivity' off) and start at
+// sub-iteration k+1: its iterates equal run A's and its first update satisfies the formula with the harness's own sensitivities.
 #include "c07_recon_common.h"
 #include "stir/OSMAPOSL/OSMAPOSLReconstruction.h"
 #include "stir/OSSPS/OSSPSReconstruction.h"
@@ -77,7 +84,7 @@ struct StepRef
 
 //! the documented update of OSMAPOSLReconstruction::update_estimate in double on the explicit P
 StepRef
-ref_step(const Fixture& F, const Cfg& k, const std::vector<double>& lam, int subiter, GeneralisedPrior<target_type>* prior)
+ref_step(const Fixture& F, const Cfg& k, const std::vector<double>& lam, int subiter, const OwnPrior& own, GeneralisedPrior<target_type>* prior_object)
 {
   StepRef r;
   const std::size_t nv = lam.size();
@@ -91,17 +98,25 @@ ref_step(const Fixture& F, const Cfg& k, const std::vector<double>& lam, int sub
   r.next.assign(nv, 0.);
   r.skip.assign(nv, 0);
   std::vector<double> upd(nv, 0.);
-  if (!prior)
+  if (!own.on)
     {
       for (std::size_t v = 0; v < nv; ++v)
         upd[v] = (num[v] == 0. && s[v] == 0.) ? 0. : num[v] / s[v]; // divide(..., small_num = 0)
     }
   else
     {
-      shared_ptr<target_type> lam_img = image_from_vec(F, lam);
-      shared_ptr<target_type> g_img(lam_img->get_empty_copy());
-      prior->compute_gradient(*g_img, *lam_img);
-      const std::vector<double> g = image_vec(F, *g_img);
+      // the harness's own gradient of the documented prior (double); the gradient of a separately constructed prior object
+      // is only recorded (C09 decides the prior classes; here it must not be the oracle)
+      const std::vector<double> g = own.gradient(lam);
+      if (prior_object)
+        {
+          shared_ptr<target_type> lam_img = image_from_vec(F, lam);
+          shared_ptr<target_type> g_img(lam_img->get_empty_copy());
+          prior_object->compute_gradient(*g_img, *lam_img);
+          prior_object_statistic(k.prior.kind == 1 ? "statistic: max rel diff gradient of a QuadraticPrior object vs the harness's own"
+                                                   : "statistic: max rel diff gradient of a RelativeDifferencePrior object vs the harness's own",
+                                 image_vec(F, *g_img), g);
+        }
       const double sv = std::max(vmax(num) * 1e-6, 0.); // divide(..., small_num = 1e-6): 0 where |num| and |den| <= 1e-6 max(num)
       for (std::size_t v = 0; v < nv; ++v)
         {
@@ -183,11 +198,11 @@ struct Expected
 };
 
 Expected
-expected_iterate(const Fixture& F, const Cfg& k, const std::vector<double>& lam, int subiter, GeneralisedPrior<target_type>* prior, double gain_u,
-                 double gain_i)
+expected_iterate(const Fixture& F, const Cfg& k, const std::vector<double>& lam, int subiter, const OwnPrior& own, GeneralisedPrior<target_type>* prior_object,
+                 double gain_u, double gain_i)
 {
   Expected e;
-  e.step = ref_step(F, k, lam, subiter, prior);
+  e.step = ref_step(F, k, lam, subiter, own, prior_object);
   e.image = e.step.next;
   e.scale = vmax(e.image);
   e.due_u = k.fu.on() && subiter % k.fu.interval == 0;
@@ -377,12 +392,14 @@ execute(OSMAPOSLReconstruction<target_type>& recon, const Fixture& F, const Cfg&
 //! `keep`: receives the objects (for histories that go on using them)
 std::string
 run_recon(const Fixture& F, const Cfg& k, const std::string& prefix, const shared_ptr<target_type>& target, int start, Run& out, bool* setup_rejected,
-          Osl* keep = nullptr)
+          Osl* keep = nullptr, const SensFiles* write_sensitivities = nullptr)
 {
   Osl o;
   o.recon.reset(new OSMAPOSLReconstruction<target_type>);
   o.ospec = final_objspec(F, k.prior, k.use_subsens);
   o.obj = make_objective(F, k.prior, k.use_subsens);
+  if (write_sensitivities) // stage 1 of the file-based stages
+    set_sensitivity_files_for_writing(*o.obj, *write_sensitivities, k.use_subsens);
   o.recon->set_objective_function_sptr(o.obj);
   configure_fresh(*o.recon, k, prefix, start);
   if (keep)
@@ -398,6 +415,84 @@ resume_same_object(Osl& o, const Fixture& F, const Cfg& k, const std::string& pr
   o.recon->set_start_subiteration_num(start);
   o.recon->set_output_filename_prefix(prefix);
   return execute(*o.recon, F, k, prefix, target, start, out, setup_rejected);
+}
+
+//! every parameter of the reconstruction object that has a keyword, as a parameter text (filters and the output file format are
+//! objects: setters); 'initial estimate' makes the zero-argument reconstruct() read the start image itself
+std::string
+parameter_text(const Cfg& k, const std::string& prefix, const std::string& initial_estimate, int start)
+{
+  std::stringstream par;
+  par << "OSMAPOSLParameters :=\n"
+      << "number of subsets := " << k.N << "\n"
+      << "number of subiterations := " << k.n_sub << "\n"
+      << "start at subiteration number := " << start << "\n"
+      << "start at subset := " << k.start_subset << "\n"
+      << "save estimates at subiteration intervals := 1\n"
+      << "uniformly randomise subset order := 0\n"
+      << "initial estimate := " << initial_estimate << "\n"
+      << "output filename prefix := " << prefix << "\n"
+      << "enforce initial positivity condition := " << (k.enforce ? 1 : 0) << "\n";
+  if (k.prior.kind != 0)
+    par << "MAP_model := " << (k.multiplicative ? "multiplicative" : "additive") << "\n";
+  if (k.relchange)
+    par << "maximum relative change := " << fmt17(k.maxrc) << "\n"
+        << "minimum relative change := " << fmt17(k.minrc) << "\n";
+  if (k.fu.on())
+    par << "inter-update filter subiteration interval := " << k.fu.interval << "\n";
+  if (k.fi.on())
+    par << "inter-iteration filter subiteration interval := " << k.fi.interval << "\n";
+  par << "End :=\n";
+  return par.str();
+}
+
+//! stage 2 of the file-based stages: NEW objects; the objective function READS the sensitivities stage 1 wrote ('recompute
+//! sensitivity' off), the reconstruction starts at sub-iteration `start` from the image file `start_file`.
+//! files = 1: setters, image read by the harness (as IterativeReconstruction::get_initial_data_ptr does) and passed to
+//! set_up()/reconstruct(target);  files = 2: parameter texts + zero-argument reconstruct() ('initial estimate').
+std::string
+run_recon_files(const Fixture& F, const Cfg& k, const std::string& prefix, const std::string& start_file, int start, Run& out, const SensFiles& sf, int files)
+{
+  Osl o;
+  o.recon.reset(new OSMAPOSLReconstruction<target_type>);
+  o.obj = make_objective_reading_sensitivities(F, k.prior, k.use_subsens, sf, files);
+  o.recon->set_objective_function_sptr(o.obj);
+  if (files != 2)
+    {
+      configure_fresh(*o.recon, k, prefix, start);
+      bool rej;
+      const std::string msg = execute(*o.recon, F, k, prefix, read_image(F, start_file), start, out, &rej);
+      return msg;
+    }
+  o.recon->set_output_file_format_ptr(float_interfile());
+  if (k.fu.on())
+    o.recon->set_inter_update_filter_ptr(make_filter(k.fu));
+  if (k.fi.on())
+    o.recon->set_inter_iteration_filter_ptr(make_filter(k.fi));
+  {
+    std::stringstream par(parameter_text(k, prefix, start_file, start));
+    if (!o.recon->parse(par))
+      return "parsing the OSMAPOSL parameter text failed";
+  }
+  StdoutSilencer quiet(k.fu.kind == 2 || k.fi.kind == 2);
+  try
+    {
+      if (o.recon->reconstruct() != Succeeded::yes)
+        return "the zero-argument reconstruct() returned Succeeded::no";
+    }
+  catch (const stir_verif::AssertionFailure&)
+    {
+      throw;
+    }
+  catch (const std::exception& e)
+    {
+      return std::string("the zero-argument reconstruct(): ") + e.what();
+    }
+  out.iter.assign(std::size_t(k.n_sub) + 1, shared_ptr<target_type>());
+  for (int j = start; j <= k.n_sub; ++j)
+    out.iter[std::size_t(j)] = read_image(F, cat(prefix, "_", j, ".hv"));
+  out.final_in_memory.reset();
+  return "";
 }
 
 Result
@@ -508,6 +603,9 @@ check(const json& c_in)
   const int hist = c.value("hist", int(HIST_FRESH));
   const json hj = c.value("h", json::object());
   const std::string hnote = hist == HIST_FRESH ? std::string() : cat("[history: ", hist_name(hist), "] ");
+  // file-based stages (clause 7): only with fresh objects for every run; 1 = setters, 2 = parsed texts + reconstruct()
+  const int files = hist == HIST_FRESH ? c.value("files", 0) : 0;
+  const SensFiles sf(tmp.path);
 
   // ---------------- run A (the checked run) ----------------
   Run A;
@@ -515,10 +613,17 @@ check(const json& c_in)
   if (hist == HIST_FRESH || hist == HIST_SAME_OBJECT_RESUME)
     {
       bool rej;
-      const std::string msg = run_recon(F, k, tmp.path + "/A", image_from_vec(F, F.start), 1, A, &rej, &R);
+      const std::string msg = run_recon(F, k, tmp.path + "/A", image_from_vec(F, F.start), 1, A, &rej, &R, files ? &sf : nullptr);
       if (rej)
         return Result::reject("run A " + msg);
       VF_CHECK(msg.empty(), "run A: ", msg);
+      if (files)
+        {
+          // (7a) the files stage 1 wrote, read back with read_from_file, against the explicit-P sensitivity
+          const Result res = check_sensitivity_files(F, sf, k.use_subsens, k.N, proj_note);
+          if (res.failed())
+            return res;
+        }
     }
   else if (hist == HIST_SECOND_RUN)
     {
@@ -630,16 +735,20 @@ check(const json& c_in)
                                     k.fi.interval, "; kinds: 1 Gaussian, 2 Metz, 3 separable convolution)")
                               : std::string());
 
+  // the oracle of clause (5) is the harness's own prior; a separately constructed prior object only feeds a statistic
+  const OwnPrior own_prior = make_own_prior(F, k.prior);
   shared_ptr<GeneralisedPrior<target_type>> ref_prior = make_prior(F, k.prior);
   if (ref_prior)
     ref_prior->set_up(F.image);
+  std::vector<Expected> expected(std::size_t(n) + 1);
   const double gain_u = k.fu.on() ? filter_gain(F, k.fu) : 1., gain_i = k.fi.on() ? filter_gain(F, k.fi) : 1.;
   bool any_cap = false, any_ambiguous = false, any_relclamp = false, any_threshold = false;
   {
     // (1)/(5)/(2') every update against the documented result, one step at a time from the previous SAVED iterate
     for (int j = 1; j <= n; ++j)
       {
-        const Expected e = expected_iterate(F, k, lam[std::size_t(j - 1)], j, ref_prior.get(), gain_u, gain_i);
+        expected[std::size_t(j)] = expected_iterate(F, k, lam[std::size_t(j - 1)], j, own_prior, ref_prior.get(), gain_u, gain_i);
+        const Expected& e = expected[std::size_t(j)];
         any_cap |= e.step.fl.cap_active;
         any_relclamp |= e.step.relclamp;
         any_threshold |= e.threshold_active;
@@ -723,72 +832,118 @@ check(const json& c_in)
           ks.push_back(kk);
       }
   long compared = 0;
-  for (int kk : ks)
+  // kinds of resumed runs: 0 fresh objects that recompute their sensitivities, 1 the same reconstruction object again,
+  // 2 file-based stage 2 (fresh objects that read image AND sensitivities from the files of stage 1).  In a files case the
+  // file-based resume replaces the recomputing one (same cost); "files_both" (thorough tier) runs both.
+  std::vector<int> kinds;
+  if (hist != HIST_FRESH)
+    kinds.push_back(1);
+  else
     {
-      const std::vector<double>& lk = lam[std::size_t(kk)];
-      bool has_zero = false, zero_inside = false;
-      for (std::size_t v = 0; v < lk.size(); ++v)
-        if (lk[v] == 0.)
-          {
-            has_zero = true;
-            if (F.sens_total[v] > 0)
-              zero_inside = true;
-          }
-      // soundness (DESIGN C07): enforce_initial_positivity lifts exact zeros of the INITIAL image of the resumed run; an
-      // uninterrupted run keeps them.  Equality is demanded when nothing is lifted, or when the lifted voxels cannot
-      // influence anything (never seen by any bin, no prior/filter/relative-change floor: they are multiplied by 0 again).
-      const bool lifting = k.enforce && has_zero;
-      const bool lifting_harmless = lifting && !zero_inside && k.prior.kind == 0 && !k.any_filter() && !k.relchange;
-      Run B;
-      bool rej;
-      shared_ptr<target_type> start_img = read_image(F, cat(tmp.path, "/A_", kk, ".hv"));
-      const std::string msg = hist == HIST_FRESH ? run_recon(F, k, cat(tmp.path, "/B", kk), start_img, kk + 1, B, &rej)
-                                                 : resume_same_object(R, F, k, cat(tmp.path, "/B", kk), start_img, kk + 1, B, &rej);
-      VF_CHECK(msg.empty(), hnote, "resumed run (start at sub-iteration ", kk + 1, ") failed: ", msg);
-      if (hist != HIST_FRESH)
-        stats().count("resumes on the same reconstruction object");
-      if (!lifting || lifting_harmless)
-        {
-          for (int j = kk + 1; j <= n; ++j)
-            {
-              const Result res = compare_images("restart", image_vec(F, *B.iter[std::size_t(j)]), lam[std::size_t(j)], nullptr, 1e-6, "max rel diff restart",
-                                                cat(hnote, "(resumed at sub-iteration ", kk + 1, " from the image saved after ", kk, ", iterate ", j, " of ", n, ", N=", k.N,
-                                                    hist == HIST_FRESH ? ", fresh objects" : ", on the object that has run before", ")"));
-              if (res.failed())
-                return res;
-            }
-          ++compared;
-          if (kk % k.N != 0)
-            stats().count("restarts compared at k not a multiple of N");
-          if (lifting_harmless)
-            stats().count("restarts compared with lifted never-seen voxels");
-        }
-      else
-        {
-          // documented behaviour of the option: the resumed run starts from the lifted image -> its first update is checked by formula
-          bool ch;
-          const std::vector<double> lifted = lift_initial(lk, ch);
-          const Expected e = expected_iterate(F, k, lifted, kk + 1, ref_prior.get(), gain_u, gain_i);
-          bool asserted;
-          const Result res = check_step(F, k, e, image_vec(F, *B.iter[std::size_t(kk + 1)]), kk + 1,
-                                        cat(hnote, "first update of the resumed run, initial zeros lifted as documented; resumed at sub-iteration ", kk + 1, "; "), &asserted,
-                                        "max rel err first update after restart with lifting");
-          if (res.failed())
-            return res;
-          stats().count("restarts with documented lifting of zeros: first update checked by formula instead");
-        }
-      for (int j = kk + 1; j <= n; ++j)
-        {
-          const std::vector<double> b = image_vec(F, *B.iter[std::size_t(j)]);
-          for (std::size_t v = 0; v < b.size(); ++v)
-            VF_CHECK(std::isfinite(b[v]) && b[v] >= 0., hnote, "resumed run (from ", kk, "): iterate ", j, " has value ", b[v], " at voxel ", v);
-        }
+      if (files)
+        kinds.push_back(2);
+      if (!files || c.value("files_both", false))
+        kinds.push_back(0);
     }
+  for (int kk : ks)
+    for (int kind : kinds)
+      {
+        const std::vector<double>& lk = lam[std::size_t(kk)];
+        bool has_zero = false, zero_inside = false;
+        for (std::size_t v = 0; v < lk.size(); ++v)
+          if (lk[v] == 0.)
+            {
+              has_zero = true;
+              if (F.sens_total[v] > 0)
+                zero_inside = true;
+            }
+        // soundness (DESIGN C07): enforce_initial_positivity lifts exact zeros of the INITIAL image of the resumed run; an
+        // uninterrupted run keeps them.  Equality is demanded when nothing is lifted, or when the lifted voxels cannot
+        // influence anything (never seen by any bin, no prior/filter/relative-change floor: they are multiplied by 0 again).
+        const bool lifting = k.enforce && has_zero;
+        const bool lifting_harmless = lifting && !zero_inside && k.prior.kind == 0 && !k.any_filter() && !k.relchange;
+        Run B;
+        bool rej = false;
+        const std::string start_file = cat(tmp.path, "/A_", kk, ".hv");
+        const std::string bprefix = cat(tmp.path, kind == 2 ? "/F" : "/B", kk);
+        const std::string how = kind == 0 ? ", fresh objects"
+                                          : (kind == 1 ? ", on the object that has run before"
+                                                       : (files == 2 ? ", NEW objects reading image and sensitivities from files (parsed parameter texts, reconstruct())"
+                                                                     : ", NEW objects reading image and sensitivities from files (setters)"));
+        const std::string msg = kind == 0 ? run_recon(F, k, bprefix, read_image(F, start_file), kk + 1, B, &rej)
+                                          : (kind == 1 ? resume_same_object(R, F, k, bprefix, read_image(F, start_file), kk + 1, B, &rej)
+                                                       : run_recon_files(F, k, bprefix, start_file, kk + 1, B, sf, files));
+        VF_CHECK(msg.empty(), hnote, "resumed run (start at sub-iteration ", kk + 1, how, ") failed: ", msg);
+        if (kind == 1)
+          stats().count("resumes on the same reconstruction object");
+        if (kind == 2)
+          stats().count(files == 2 ? "file-based resumes (image and sensitivities from files): parsed parameter texts + reconstruct()"
+                                   : "file-based resumes (image and sensitivities from files): setters");
+        if (!lifting || lifting_harmless)
+          {
+            for (int j = kk + 1; j <= n; ++j)
+              {
+                const Result res = compare_images(kind == 2 ? "restart through files" : "restart", image_vec(F, *B.iter[std::size_t(j)]), lam[std::size_t(j)], nullptr, 1e-6,
+                                                  kind == 2 ? "max rel diff restart through files (image and sensitivities read)" : "max rel diff restart",
+                                                  cat(hnote, "(resumed at sub-iteration ", kk + 1, " from the image saved after ", kk, ", iterate ", j, " of ", n, ", N=", k.N,
+                                                      kind == 2 ? (k.use_subsens ? ", 'subset sensitivity filenames'" : ", 'sensitivity filename'") : "", how, ")"));
+                if (res.failed())
+                  return res;
+              }
+            ++compared;
+            if (kk % k.N != 0)
+              stats().count("restarts compared at k not a multiple of N");
+            if (lifting_harmless)
+              stats().count("restarts compared with lifted never-seen voxels");
+            if (kind == 2 && !lifting)
+              {
+                // (7b) the first update of the run that READ its sensitivities: the formula with the harness's own sensitivities
+                // (decides the clause without reference to run A's arithmetic; same tolerance as clause (1)/(5))
+                bool asserted;
+                const Result res = check_step(F, k, expected[std::size_t(kk + 1)], image_vec(F, *B.iter[std::size_t(kk + 1)]), kk + 1,
+                                              cat(hnote, "first update of a run whose objective function read its sensitivities from file", how, "; "), &asserted,
+                                              k.prior.kind ? "max rel err MAP update, first update after reading the sensitivities from file"
+                                                           : "max rel err EM update, first update after reading the sensitivities from file");
+                if (res.failed())
+                  return res;
+                if (asserted)
+                  stats().count("first updates of file-based resumes checked by formula");
+              }
+          }
+        else
+          {
+            // documented behaviour of the option: the resumed run starts from the lifted image -> its first update is checked by formula
+            bool ch;
+            const std::vector<double> lifted = lift_initial(lk, ch);
+            const Expected e = expected_iterate(F, k, lifted, kk + 1, own_prior, nullptr, gain_u, gain_i);
+            bool asserted;
+            const Result res = check_step(F, k, e, image_vec(F, *B.iter[std::size_t(kk + 1)]), kk + 1,
+                                          cat(hnote, "first update of the resumed run, initial zeros lifted as documented; resumed at sub-iteration ", kk + 1, how, "; "), &asserted,
+                                          "max rel err first update after restart with lifting");
+            if (res.failed())
+              return res;
+            stats().count("restarts with documented lifting of zeros: first update checked by formula instead");
+          }
+        for (int j = kk + 1; j <= n; ++j)
+          {
+            const std::vector<double> b = image_vec(F, *B.iter[std::size_t(j)]);
+            for (std::size_t v = 0; v < b.size(); ++v)
+              VF_CHECK(std::isfinite(b[v]) && b[v] >= 0., hnote, "resumed run (from ", kk, how, "): iterate ", j, " has value ", b[v], " at voxel ", v);
+          }
+      }
   stats().count("restarts compared with run A", compared);
-  stats().count("restarts run", long(ks.size()));
+  stats().count("restarts run", long(ks.size() * kinds.size()));
 
   // classes
   stats().cls(cat("history: ", hist_name(hist)));
+  if (files)
+    {
+      stats().cls(files == 2 ? "file-based stages: stage 2 through parsed parameter texts and the zero-argument reconstruct()" : "file-based stages: stage 2 through the setters");
+      stats().cls(k.use_subsens ? (k.N > 1 ? "file-based stages: 'subset sensitivity filenames', N > 1" : "file-based stages: 'subset sensitivity filenames', N = 1")
+                                : (k.N > 1 ? "file-based stages: 'sensitivity filename' (total), N > 1" : "file-based stages: 'sensitivity filename' (total), N = 1"));
+      if (n > 1)
+        stats().cls("file-based stages with at least one resume");
+    }
   stats().cls(k.N == 1 ? "N=1" : (k.N <= 4 ? "N=2-4" : "N>=5"));
   stats().cls(cat("prior ", k.prior.kind == 0 ? "none" : (k.prior.kind == 1 ? "quadratic" : "RDP"), k.prior.kind ? (k.multiplicative ? " multiplicative" : " additive") : ""));
   if (k.prior.kappa && k.prior.kind)
@@ -941,6 +1096,17 @@ gen(Src& s, int size)
         h["k_pick"] = std::vector<int>{ int(s.range(0, 35)), int(s.range(0, 35)) };
       }
     c["h"] = h;
+  }
+  // file-based stages (effective in the fresh-object history): none 1/2, stage 2 through the setters 1/4, through parsed
+  // parameter texts + the zero-argument reconstruct() 1/4; in these cases use_subset_sensitivities is off half of the time
+  // (the total-sensitivity file is divided by the number of subsets by the READER)
+  {
+    const int fr = int(s.range(0, 3));
+    c["files"] = fr < 2 ? 0 : fr - 1;
+    const bool flip = s.chance(1, 3);
+    if (fr >= 2 && flip && c["hist"].get<int>() == HIST_FRESH)
+      c["use_subsens"] = false;
+    c["files_both"] = size > 75; // thorough tier: also the recomputing resume at every k
   }
   return c;
 }
